@@ -1,7 +1,7 @@
 #!/bin/sh
 # tools/seed_batch.sh <PROP> [seconds]  -- verify both seeded patches of a property and run its check on them
 id=$1; secs=${2:-40}
-for v in a b; do
+for v in ${VARIANTS:-a b c}; do
   echo "===== $id $v"
   tools/verify_seed.sh $id $v
   tools/mutant.sh /tmp/wt/$id-out/patch_$v.diff $id $secs | grep -v "^  shrink" | grep -E "VIOLATION|quick:|HARNESS|^  [a-z]" | cut -c1-260 | head -8
